@@ -9,6 +9,7 @@ package main
 //	agg table   <delim> <ops>                TableAggregator; ops = s:<hex> | t:<neg>:<cols>:<rows>:<lo>:<hi>, comma separated
 //	agg num     <keep> <rev> <hist> <qs>     MatchNumerical vs Lean's native Float (+ tolerance vs the exact Rat run)
 //	agg numf / numfv ...                     MatchNumerical vs the software binary64 model (see c07numf64.go)
+//	agg numerr <e> <bits>                    the proved float tolerances checked on the real aggregator (see c07numerr.go)
 //	split <delim> <s> <n>                    stringSplitter.Splitter: n calls of Next with Done after each
 //	acc <opt> <rev> <ops>                    AccumulatingGroup (see c07acc.go)
 //	sorted counter|subkey|table ...          counted / sorted accessors (see c07sorted.go)
@@ -193,6 +194,8 @@ func c07RunOnce(f []string) string {
 			return c07RunTable(string(UnHex(f[2])), ops)
 		case "numf", "numfv":
 			return c07RunNumF(f)
+		case "numerr":
+			return c07RunNumErr(f)
 		case "num":
 			var qs []string
 			if f[5] != "." {
@@ -429,6 +432,7 @@ func c07Gen(r *Rand, tier string) []string {
 	out = append(out, c07SortedGen(r, tier)...)
 	out = append(out, c07GkGen(r, tier)...)
 	out = append(out, c07NumFGen(r, tier)...)
+	out = append(out, c07NumErrGen(r, tier)...)
 	for i := 0; i < n; i++ {
 		out = append(out, "agg counter "+HexListS(c07Hist(r, "\x00", 1)))
 		out = append(out, "agg subkey "+HexListS(c07Hist(r, "\x00", 2)))
@@ -551,6 +555,8 @@ func c07Stats(cases []string) map[string]int {
 			}
 		case "numf", "numfv":
 			c07NumFStats(f, st)
+		case "numerr":
+			c07NumErrStats(f, st)
 		case "num":
 			if f[2] == "0" {
 				st["num.noKeep"]++
@@ -585,5 +591,5 @@ var c07Corpus = []string{
 }
 
 func init() {
-	Register("C07", &Prop{Gen: c07Gen, Run: c07Run, Stats: c07Stats, Corpus: append(append(append([]string{}, c07Corpus...), c07AccCorpus...), c07NumFCorpus...)})
+	Register("C07", &Prop{Gen: c07Gen, Run: c07Run, Stats: c07Stats, Corpus: append(append(append(append([]string{}, c07Corpus...), c07AccCorpus...), c07NumFCorpus...), c07NumErrCorpus...)})
 }
